@@ -639,8 +639,123 @@ def r16e(ctx, P):
 THOROUGH_FEATURES = ['r16e']
 
 
+def r16f(ctx, P):
+    rid = "R16.f"
+    import re
+    from sa.rules import strsafe
+    ctx.rule(rid, "WIDTH AGREEMENT (skipping a delimiter that was searched for): wherever code reachable from IndexReader::search slices "
+                  "a string at `<index found by find / rfind / position / char_indices> + w`, the width w is that of what was found "
+                  "THERE: a constant equal to the byte length of the constant pattern (1 for an ASCII char literal, len for a &str "
+                  "literal), or len_utf8() of the character delivered by the same search. A width taken from another match, or a "
+                  "constant next to a pattern that can match characters of several widths, lands inside a multi-byte character (or "
+                  "past the end) for some input, and str indexing panics")
+    S, entries, reach = entry_set(P)
+    FIND = ("::find", "::rfind", "::position", "::rposition", "::char_indices", "::match_indices", "::find_map")
+    n = 0
+    for q in sorted(reach):
+        f = P.fns.get(q)
+        if f is None or f.crate != "searchlite_core" or is_test_or_bench(f):
+            continue
+        if f.kind != "closure" and strsafe.byte_offset_calls(f):
+            f = P.inlined(q, depth=1, small=40) or f       # a `find the delimiter` helper is read in place
+        for b, t, idxs in strsafe.byte_offset_calls(f):
+            sl = Slice(f, through_all_calls=True)
+            sl0 = Slice(f)
+            for o in strsafe._leaf_offsets(f, sl0, t["args"][1]):
+                l = op_local(o) if isinstance(o, dict) else None
+                if l is None:
+                    continue
+                # definition chain: find the Add that forms the offset
+                adds = [x for x in sl0.sources(o) if x[0] == "binop" and x[1] in ("Add", "AddWithOverflow")]
+                for x in adds:
+                    st = f.blocks[x[2]]["stmts"][x[3]]
+                    a_, b_ = st["rv"]["a"], st["rv"]["b"]
+                    for idx_op, w_op in ((a_, b_), (b_, a_)):
+                        finds = [y for y in sl.sources(idx_op) if y[0] == "call" and callee_of(y[2]).endswith(FIND) and "str" in callee_of(y[2]) + f.local_ty(op_local(y[2]["args"][0]) or 0)]
+                        if not finds:
+                            continue
+                        wc = op_const(w_op)
+                        w_finds = [y for y in sl.sources(w_op) if y[0] == "call" and callee_of(y[2]).endswith(FIND)]
+                        w_src = sl.sources(w_op)
+                        utf8_in_closure = any(y[0] == "agg" and y[3].get("closure") and P.fn(y[3]["closure"]) is not None and
+                                              any(callee_of(t_).endswith("::len_utf8") for b_, t_ in P.fn(y[3]["closure"]).calls()) for y in w_src)
+                        if wc is None and not utf8_in_closure and not any(y[0] == "call" and callee_of(y[2]).endswith("::len_utf8") for y in w_src) and \
+                                not any(y[0] == "call" and callee_of(y[2]).endswith("::len") for y in w_src):
+                            continue        # not a width (some other arithmetic): other rules
+                        n += 1
+                        ctx.saw(f)
+                        ok, why = False, ""
+                        fy = finds[0][2]
+                        pat = fy["args"][1] if len(fy["args"]) > 1 else None
+                        pc = op_const(pat) if pat is not None else None
+                        if wc is not None and wc.get("int") is not None:
+                            k = wc["int"]
+                            if pc is not None and "char" in str(pc.get("ty", "")) and pc.get("int") is not None and pc["int"] < 128 and k == 1:
+                                ok = True
+                            elif pc is not None and const_strlen(pc) is not None and const_strlen(pc) == k:
+                                ok = True
+                            else:
+                                why = "a constant width %d next to a pattern that is not a constant of that byte length" % k
+                        else:
+                            def origin(o_):
+                                """block of the search call whose result the operand is (through copies, payload projections, inlined
+                                returns and Option adapters) — a definition chain, not a slice, so loop-carried values do not blur it"""
+                                l_ = op_local(o_)
+                                seen_ = set()
+                                while l_ is not None and l_ not in seen_:
+                                    seen_.add(l_)
+                                    dd = [d for d in f.defs().get(l_, []) if not d.get("partial")]
+                                    if len(dd) != 1:
+                                        return None
+                                    d = dd[0]
+                                    if d["k"] == "call":
+                                        c_ = callee_of(d["t"])
+                                        if c_.endswith(FIND) or c_.endswith("Iterator>::next"):
+                                            return d["b"]
+                                        if c_.endswith(("Option::<T>::map", "::unwrap", "::unwrap_or", "::expect", "::ok_or", "::ok_or_else", "::copied", "::cloned",
+                                                        "::len_utf8")) and d["t"]["args"]:
+                                            l_ = op_local(d["t"]["args"][0])
+                                            continue
+                                        return None
+                                    rv_ = d["rv"]
+                                    if rv_["k"] in ("use", "cast"):
+                                        pl_ = op_place(rv_["a"])
+                                        l_ = pl_["l"] if pl_ else None
+                                        continue
+                                    if rv_["k"] == "ref":
+                                        l_ = rv_["place"]["l"]
+                                        continue
+                                    return None
+                                return None
+                            oi, ow = origin(idx_op), origin(w_op)
+                            same = oi is not None and oi == ow
+                            lens = any(y[0] == "call" and callee_of(y[2]).endswith("::len") for y in sl.sources(w_op))
+                            if same or (lens and pat is not None and (sl0.locals(w_op) & sl0.locals(pat) or
+                                                                      {l_ for l_ in sl.locals(w_op) if f.locals[l_].get("name")} & {l_ for l_ in sl.locals(pat) if f.locals[l_].get("name")})):
+                                ok = True
+                            else:
+                                why = "a width that does not come from the match it is added to (another search's character, or an unrelated length)"
+                        ctx.ob(rid, "%s:%s:delimiter-width" % (rid, f.short.rsplit("::", 1)[-1]), ok,
+                               "the offset at %s skips exactly what was found" % Site(f, b).loc() if ok else
+                               "the string offset at %s is `found index + w` with %s: for some input it is not a char boundary (or lies past "
+                               "the end) and the slice panics" % (Site(f, b).loc(), why), Site(f, b).loc())
+    ctx.floor(rid, n, 2, "delimiter-skipping string offsets reachable from search (query-string parser)")
+
+
+def const_strlen(c):
+    import re
+    m = re.match(r'^(?:const )?"(.*)"$', c.get("txt", "") if c else "")
+    if not m:
+        return None
+    try:
+        return len(m.group(1).encode("utf-8").decode("unicode_escape").encode("latin-1", "ignore")) if "\\" in m.group(1) else len(m.group(1).encode("utf-8"))
+    except Exception:
+        return len(m.group(1).encode("utf-8"))
+
+
 def run(ctx, progs):
     P = progs.get("default")
+    r16f(ctx, P)
     r16a(ctx, P)
     r16e(ctx, P)
     r16d(ctx, P)
